@@ -522,36 +522,71 @@ pub fn enum_cases(rng: &mut Rng, cfg: &Cfg, fields: &[(&str, i32, i32)]) -> Vec<
 // ---------------------------------------------------------------------------------------------
 // what makes a case distinct and non-trivial (the rule stated in the evidence)
 
-fn class_of(v: &Value) -> String {
+fn class_into(v: &Value, out: &mut String) {
     match v {
-        Value::Null => "none".into(),
-        Value::Bool(b) => b.to_string(),
+        Value::Null => out.push_str("none"),
+        Value::Bool(b) => out.push_str(if *b { "true" } else { "false" }),
         Value::Number(n) => {
             if let Some(i) = n.as_i64() {
-                if i.unsigned_abs() < 65536 { i.to_string() } else { format!("{}b{}", if i < 0 { "-" } else { "+" }, 64 - i.unsigned_abs().leading_zeros()) }
+                if i.unsigned_abs() < 65536 {
+                    out.push_str(&i.to_string());
+                } else {
+                    out.push(if i < 0 { '-' } else { '+' });
+                    out.push('b');
+                    out.push_str(&(64 - i.unsigned_abs().leading_zeros()).to_string());
+                }
             } else {
-                format!("+b{}", 64 - n.as_u64().unwrap_or(0).leading_zeros())
+                out.push_str("+b");
+                out.push_str(&(64 - n.as_u64().unwrap_or(0).leading_zeros()).to_string());
             }
         }
         Value::String(s) => {
-            let widest = s.chars().map(|c| c.len_utf8()).max().unwrap_or(0);
-            let len = match s.len() {
-                0 => "0",
-                1..=127 => "1",
-                128..=16383 => "2",
-                _ => "3",
-            };
-            format!("s{len}w{widest}")
+            let widest = if s.is_ascii() { usize::from(!s.is_empty()) } else { s.chars().map(|c| c.len_utf8()).max().unwrap_or(0) };
+            out.push('s');
+            out.push(match s.len() {
+                0 => '0',
+                1..=127 => '1',
+                128..=16383 => '2',
+                _ => '3',
+            });
+            out.push('w');
+            out.push((b'0' + widest as u8) as char);
         }
-        Value::Array(a) => format!("[{}]", a.iter().map(class_of).collect::<Vec<_>>().join(",")),
-        Value::Object(m) => format!("{{{}}}", m.iter().map(|(k, v)| format!("{k}:{}", class_of(v))).collect::<Vec<_>>().join(",")),
+        Value::Array(a) => {
+            out.push('[');
+            for x in a {
+                class_into(x, out);
+                out.push(',');
+            }
+            out.push(']');
+        }
+        Value::Object(m) => {
+            out.push('{');
+            for (k, x) in m {
+                out.push_str(k);
+                out.push(':');
+                class_into(x, out);
+                out.push(',');
+            }
+            out.push('}');
+        }
     }
 }
 
 pub fn case_class(case: &Value) -> String {
+    let mut out = String::with_capacity(96);
     match case.get("kind").and_then(|k| k.as_str()) {
-        Some("packet") => format!("{}{}", case["packet"].as_str().unwrap_or("?"), class_of(&case["fields"])),
-        Some("enum") => format!("enum {} {}", case["field"].as_str().unwrap_or("?"), case["ordinal"]),
-        _ => case.to_string(),
+        Some("packet") => {
+            out.push_str(case["packet"].as_str().unwrap_or("?"));
+            class_into(&case["fields"], &mut out);
+        }
+        Some("enum") => {
+            out.push_str("enum ");
+            out.push_str(case["field"].as_str().unwrap_or("?"));
+            out.push(' ');
+            class_into(&case["ordinal"], &mut out);
+        }
+        _ => out.push_str(&case.to_string()),
     }
+    out
 }
